@@ -12,6 +12,7 @@
 //!        | ( fields fty* ) ( tail uty+ )   MAC = unsized (KIND struct|tuple)
 //!        | ( variants ( fty* )* )          KIND = enum
 //! fty   := u8 | i8 | bool | u8x3 | pubkey | unit | phantom | u16 | u32 | u64 | pv64 | np | na2 | ne
+//!        | u16x2 | tup16
 //!        | T | Tx2 | phT                   (only with GEN = generic)
 //! uty   := list | rem | nestrem | nestlist
 //! ```
@@ -78,8 +79,8 @@ impl Kind {
 
 pub const INT_HINTS: [&str; 12] =
     ["u8", "i8", "u16", "i16", "u32", "i32", "u64", "i64", "u128", "i128", "usize", "isize"];
-pub const CONCRETE_FTYS: [&str; 14] =
-    ["u8", "i8", "bool", "u8x3", "pubkey", "unit", "phantom", "u16", "u32", "u64", "pv64", "np", "na2", "ne"];
+pub const CONCRETE_FTYS: [&str; 16] =
+    ["u8", "i8", "bool", "u8x3", "pubkey", "unit", "phantom", "u16", "u32", "u64", "pv64", "np", "na2", "ne", "u16x2", "tup16"];
 pub const PARAM_FTYS: [&str; 3] = ["T", "Tx2", "phT"];
 pub const UTYS: [&str; 4] = ["list", "rem", "nestrem", "nestlist"];
 
@@ -120,6 +121,8 @@ pub fn fty_rust(t: &str, x: Option<&str>) -> String {
     match t {
         "u8" | "i8" | "bool" | "u16" | "u32" | "u64" => t.to_string(),
         "u8x3" => "[u8; 3]".into(),
+        "u16x2" => "[u16; 2]".into(),
+        "tup16" => "(u16,)".into(),
         "pubkey" => "star_frame::prelude::Pubkey".into(),
         "unit" => "()".into(),
         "phantom" => "core::marker::PhantomData<u64>".into(),
